@@ -14,11 +14,13 @@ import os
 import random
 import time
 
+from . import c15_deep
 from . import c15_extra
 from . import c15_lib as Lb
 from .core import Sym, sx
 
-EXTRA = ("attr", "fromtd", "chains")
+EXTRA = ("attr", "fromtd", "chains", "indep", "nary")
+DEEP = ("indep", "nary")
 
 QUICK_CLASSES_ALL_LAYOUTS = ["Dec", "Sub", "Nest"]
 
@@ -122,6 +124,11 @@ PATTERNS = [
         and a.get("status") == "ok" and _only(f, "wrap")),
 ]
 EXTRA_PATTERNS = [
+    # --- deep streams (harness/c15_deep.py computes the decidable part of the signature as a flag)
+    ("D182-nary-result-keeps-first-operands-_non_tensordict", lambda c, probs, f: c["stream"] == "nary" and c["layout"] == "legacy"
+        and "sig:first-operand-store-wins" in f),
+    ("D183-stale-none-hides-tensor-of-shared-tensordict", lambda c, probs, f: c["stream"] == "indep" and c["layout"] in ("lazy", "lazyhet")
+        and c["mutation"]["kind"] == "tensor" and "sig:stale-none-hides-tensor-of-shared-tensordict" in f),
     ("D176-autocast-dict-into-none-field", lambda c, probs, f: c["stream"] == "attr" and c["cls"] == "AutoNest" and c.get("field") == "inner"
         and c.get("vkind") == "tcdict" and probs and all("not in exactly one store" in p and "'inner'" in p for p in probs)),
     ("D167-derived-class-_load_memmap-replaced", lambda c, probs, f: c["stream"] == "chains" and c["cls"] in DERIVED and probs
@@ -139,7 +146,8 @@ def classify(case, o_tc, o_td, flags, probs):
                     return {"pattern": pid}
             except Exception:  # noqa: BLE001
                 continue
-        return {"pattern": "other", "stream": case["stream"], "call": case.get("op") or case.get("cls"), "kind": (probs[0][:60] if probs else "")}
+        return {"pattern": "other", "stream": case["stream"], "call": case.get("op") or case.get("producer") or case.get("fn") or case.get("cls"),
+                "kind": (probs[0][:60] if probs else "")}
     for pid, pred in PATTERNS:
         try:
             if pred(case, o_tc, o_td, flags):
@@ -312,7 +320,7 @@ def run_chunk(chunk):
     for (i, case) in chunk:
         if case.get("stream") in EXTRA:
             try:
-                verdict, probs, flags, detail = c15_extra.run_extra(case)
+                verdict, probs, flags, detail = (c15_deep.run_deep if case["stream"] in DEEP else c15_extra.run_extra)(case)
             except Exception as e:  # noqa: BLE001 -- e.g. a subject that can no longer be constructed: reported, never skipped
                 verdict, probs, flags, detail = "fail", [f"the case could not be run: {type(e).__name__}: {str(e)[:160]}"], ["build"], {"msg": str(e)[:200]}
             out.append((i, verdict, probs, flags, detail, {}, None))
@@ -382,6 +390,7 @@ def main(R):
     t0 = time.time()
     cases, unsynth = gen_cases(R)
     cases += c15_extra.gen(R)
+    cases += c15_deep.gen(R)
     results = run_all(cases)
     R.extra["impl_wall_s"] = round(time.time() - t0, 1)
     abstracts = []
@@ -409,6 +418,7 @@ def main(R):
     if ok:
         from . import c15_model
         c15_model.correspond(R, cases, abstracts, results, info)
+        c15_deep.correspond(R, cases, results)
 
 
 def replay(body):
@@ -417,6 +427,8 @@ def replay(body):
     Lb.T()
     case = body["case"]
     print("case:", json.dumps(case))
+    if case.get("stream") in DEEP:
+        return c15_deep.replay(case)
     if case.get("stream") in EXTRA:
         return c15_extra.replay(case)
     o_tc = Lb.invoke(case, "tc")
